@@ -234,6 +234,7 @@ type config struct {
 	validators, nodes int
 	pos               bool
 	epoch             uint32
+	fin               uint32 // height of the FINALITY fork
 }
 
 func (c config) String() string {
@@ -241,11 +242,14 @@ func (c config) String() string {
 	if c.pos {
 		m = "pos"
 	}
+	if c.fin > 0 {
+		return fmt.Sprintf("%s-v%d-n%d-E%d-F%d", m, c.validators, c.nodes, c.epoch, c.fin)
+	}
 	return fmt.Sprintf("%s-v%d-n%d-E%d", m, c.validators, c.nodes, c.epoch)
 }
 
 func newRec(c config, scen string, seed int64) *rec {
-	opt := sim.Options{Validators: c.validators, Nodes: c.nodes, PoS: c.pos, EpochLength: c.epoch, SkipLogs: true, RealRun: true}
+	opt := sim.Options{Validators: c.validators, Nodes: c.nodes, PoS: c.pos, EpochLength: c.epoch, SkipLogs: true, RealRun: true, Finality: c.fin}
 	if scen == "posweights" || scen == "posforks" {
 		opt.StakingPeriod = 2 * c.epoch
 		opt.ExtraAccts = 1
@@ -281,7 +285,7 @@ func newRec(c config, scen string, seed int64) *rec {
 		thr = uint64(c.validators) * 2 / 3 // MaxBlockProposers = validators
 	}
 	w["none"] = 0
-	r.evs = append(r.evs, trace.Ev{"e": "Reset", "cfg": map[string]any{"E": c.epoch, "thrW": thr, "w": w, "nodes": c.nodes},
+	r.evs = append(r.evs, trace.Ev{"e": "Reset", "cfg": map[string]any{"E": c.epoch, "thrW": thr, "w": w, "nodes": c.nodes, "fin": c.fin},
 		"scen": scen, "seed": seed, "cfgname": c.String()})
 	return r
 }
@@ -1067,44 +1071,49 @@ func runOne(scen string, seed int64, blocks int) ([]trace.Ev, runStat) {
 	var c config
 	switch scen {
 	case "sync":
-		c = config{4, 4, pos, epoch}
+		c = config{4, 4, pos, epoch, 0}
 		if rng.Intn(3) == 0 {
-			c = config{3, 3, pos, epoch}
+			c = config{3, 3, pos, epoch, 0}
 		}
 	case "async", "async-restart":
-		c = config{4, 4, pos, epoch}
+		c = config{4, 4, pos, epoch, 0}
 	case "byz", "equivocate":
-		c = config{4, 3, pos, epoch} // validator 3 is Byzantine (f=1 < n/3)
+		c = config{4, 3, pos, epoch, 0} // validator 3 is Byzantine (f=1 < n/3)
 		if rng.Intn(3) == 0 {
-			c = config{7, 5, pos, 3} // validators 5 is silent, 6 Byzantine
+			c = config{7, 5, pos, 3, 0} // validators 5 is silent, 6 Byzantine
 		}
 	case "permute":
-		c = config{4, 3, pos, epoch}
+		c = config{4, 3, pos, epoch, 0}
 	case "latesibling":
-		c = config{4, 2, pos, 3}
+		c = config{4, 2, pos, 3, 0}
 	case "boundary":
 		// validator counts divisible by 3 with participation exactly 2n/3 (not enough) and 2n/3+1 (enough)
 		if rng.Intn(2) == 0 {
-			c = config{3, 3, pos, epoch}
+			c = config{3, 3, pos, epoch, 0}
 		} else {
-			c = config{6, 6, pos, epoch}
+			c = config{6, 6, pos, epoch, 0}
 		}
 	case "posweights":
-		c = config{4, 4, true, 3}
+		c = config{4, 4, true, 3, 0}
 	case "posforks":
-		c = config{4, 3, true, 3} // validator 3 is Byzantine
+		c = config{4, 3, true, 3, 0} // validator 3 is Byzantine
 	case "doublevote":
-		c = config{4, 2, pos, 4}
+		c = config{4, 2, pos, 4, 0}
 	case "stalefork":
-		c = config{4, 2, pos, 3}
+		c = config{4, 2, pos, 3, 0}
 	case "stalepack":
-		c = config{4, 4, pos, epoch}
+		c = config{4, 4, pos, epoch, 0}
 	case "shortbest":
-		c = config{4, 2, false, epoch}
+		c = config{4, 2, false, epoch, 0}
 	case "votelater":
-		c = config{4, 2, pos, 3}
+		c = config{4, 2, pos, 3, 0}
 	default:
 		panic("unknown scenario " + scen)
+	}
+	switch scen {
+	case "sync", "async", "async-restart", "byz", "permute":
+		// the FINALITY fork at genesis, inside the first epochs, or not a multiple of the epoch length
+		c.fin = []uint32{0, 0, c.epoch, 2 * c.epoch, c.epoch + 1}[rng.Intn(5)]
 	}
 	r := newRec(c, scen, seed)
 	switch scen {
@@ -1195,7 +1204,7 @@ func replayBehaviour(file string, seed int64) ([]trace.Ev, runStat, []string) {
 	must(err)
 	var bh behaviour
 	must(json.Unmarshal(raw, &bh))
-	r := newRec(config{4, 3, false, 3}, "tlc-schedule", seed)
+	r := newRec(config{4, 3, false, 3, 0}, "tlc-schedule", seed)
 	r.st.Cfg += ":" + filepath.Base(file)
 	real := map[string]*block.Block{pkey([][]any{}): r.net.B0} // model path -> real block
 	var notes []string
@@ -1285,7 +1294,7 @@ func replayEpochSched(file string, seed int64) ([]trace.Ev, runStat, []string) {
 	var sc epochSched
 	must(json.Unmarshal(raw, &sc))
 	const E = 4
-	r := newRec(config{4, 3, false, E}, "epoch-schedule", seed)
+	r := newRec(config{4, 3, false, E, 0}, "epoch-schedule", seed)
 	r.st.Cfg += ":" + filepath.Base(file) + ":" + sc.Variant
 	var notes []string
 	key := func(c []int) string { return fmt.Sprint(c) }
